@@ -10,6 +10,7 @@ both set `_scanned_this_step = True` (Gen tie `C09_gen_folder_flag`), which `pre
 -/
 import PrimaiteModel.Model.Health
 import PrimaiteModel.Gen.ObsCfgTables
+import PrimaiteModel.Props.C09
 namespace Primaite.Health
 open Primaite.Gen
 
@@ -255,5 +256,82 @@ def c09h_exFolder (cd : Int) : Folder :=
 
 example : (c09h_exFolder 1).tick.visible = .corrupt ∧ (c09h_exFolder 2).tick.visible = .none ∧ c09h_timedScanCompletes (c09h_exFolder 1) := by
   refine ⟨by decide, by decide, by unfold c09h_timedScanCompletes; decide⟩
+
+
+/-! ### the flag itself, and the bridge to C09's folder-cache theorem
+
+C14's model has no `_scanned_this_step` field.  Here is the flag as the CODE sets it (`C09_gen_folder_flag`: cleared by `pre_timestep` at
+the start of every step; set by `scan(instant_scan=True)` — the node scan fanning out over a live folder — and by `_scan_timestep` when a
+live folder's countdown reaches 0), defined next to C14's tick, and the proof that it is true in every tick in which the visible health
+moves.  A whole trajectory of environment steps — each one: any requests (they never touch the visible health), then the tick, on a
+node that is ON or not — therefore satisfies `Obs.ScanCoherent`, the hypothesis of `C09_folder_cache_tracks_visible`. -/
+
+/-- `_scanned_this_step` at the end of a tick starting from `m` (the node after its power phase, ON) -/
+def c09h_flagAfterTick (m : Node) (F : Folder) : Bool :=
+  (decide (m.scanCd > 0 ∧ m.scanCd - 1 = 0) && !F.deleted) || (!F.deleted && decide (F.scanCd ≥ 0 ∧ F.scanCd - 1 = 0))
+
+/-- **whenever a tick changes a folder's visible health, the flag is set in that tick** -/
+theorem C09_health_flag_set_when_visible_changes (m : Node) (F : Folder) (h : (c09h_tickFolder m F).visible ≠ F.visible) :
+    c09h_flagAfterTick m F = true := by
+  rcases c09h_tickFolder_visible m F h with ⟨hf, hd⟩ | ⟨hd, h1, h2⟩
+  · unfold c09h_nodeScanFires at hf
+    simp [c09h_flagAfterTick, hf.1, hf.2, hd]
+  · simp [c09h_flagAfterTick, hd, h1, h2]
+
+/-- one environment step as far as one folder is concerned: what the requests of the step do to it (anything that keeps the visible
+health — `C09_health_visible_unchanged_by_requests`), the node after its power phase, and whether that node is ON (else nothing ticks) -/
+structure c09h_Step where
+  m : Node
+  on : Bool
+  r : Folder → Folder
+  hr : ∀ F, (r F).visible = F.visible
+
+def c09h_stepFolder (s : c09h_Step) (F : Folder) : Folder := if s.on then c09h_tickFolder s.m (s.r F) else s.r F
+def c09h_stepFlag (s : c09h_Step) (F : Folder) : Bool := if s.on then c09h_flagAfterTick s.m (s.r F) else false
+
+/-- what `describe_state()` shows of the folder after each step: visible health and `scanned_this_step` -/
+def c09h_trace : Folder → List c09h_Step → List Primaite.Obs.FolderState
+  | _, [] => []
+  | F, s :: rest =>
+    { health := (c09h_stepFolder s F).actual.value, visible := (c09h_stepFolder s F).visible.value, scanned := c09h_stepFlag s F, files := [] } ::
+      c09h_trace (c09h_stepFolder s F) rest
+
+/-- **every trajectory of C14's folder, with the flag set where the code sets it, is scan-coherent** -/
+theorem C09_health_trace_scan_coherent : ∀ (steps : List c09h_Step) (F : Folder),
+    Primaite.Obs.ScanCoherent F.visible.value (c09h_trace F steps) := by
+  intro steps
+  induction steps with
+  | nil => intro F; trivial
+  | cons s rest ih =>
+    intro F
+    refine ⟨?_, ih (c09h_stepFolder s F)⟩
+    intro hflag
+    simp only [c09h_trace] at hflag ⊢
+    unfold c09h_stepFlag at hflag
+    unfold c09h_stepFolder
+    cases hon : s.on with
+    | false => simp [s.hr F]
+    | true =>
+      simp only [hon, if_true] at hflag ⊢
+      by_cases hv : (c09h_tickFolder s.m (s.r F)).visible = (s.r F).visible
+      · rw [hv, s.hr F]
+      · have := C09_health_flag_set_when_visible_changes s.m (s.r F) hv
+        rw [this] at hflag
+        cases hflag
+
+/-- **the folder leaf of the observation equals the visible health of C14's folder at EVERY step of every such trajectory** (scanning
+required, cache initially equal to the visible health — both 0 for a fresh object and a never-scanned folder) -/
+theorem C09_folder_leaf_tracks_health_model (o : Primaite.Obs.FolderObs) (F : Folder) (steps : List c09h_Step)
+    (hs : o.scan = true) (hc : o.cached = F.visible.value) :
+    Primaite.Obs.folderRun o (c09h_trace F steps) = (c09h_trace F steps).map (fun f => f.visible) :=
+  Primaite.Obs.C09_folder_cache_tracks_visible (c09h_trace F steps) o F.visible.value hs hc (C09_health_trace_scan_coherent steps F)
+
+/-- non-vacuity: a corrupt file, the folder's timed scan completing in the second step: visible NONE then CORRUPT, flag false then true -/
+def c09h_exNode : Node :=
+  { power := .on, startDur := 0, startCd := 0, shutDur := 0, shutCd := 0, resetting := false, scanDur := 3, scanCd := 0, sws := [], folders := [] }
+def c09h_exStep : c09h_Step := { m := c09h_exNode, on := true, r := id, hr := fun _ => rfl }
+
+example : (c09h_trace (c09h_exFolder 2) [c09h_exStep, c09h_exStep, c09h_exStep]).map (fun f => (f.visible, f.scanned)) =
+    [(FsH.none.value, false), (FsH.corrupt.value, true), (FsH.corrupt.value, false)] := by decide
 
 end Primaite.Health
